@@ -1,0 +1,88 @@
+//go:build verif
+
+// Verification contracts (property C42, addition; comment-only, read by /verif/govc).
+// (1) A mutate closure renders the object from the cluster spec only: it reads nothing of the live object it is
+// handed (a decision based on what the API server stored last time makes two reconciles differ).
+// (2) The enclosing reconcile function, which computes the values the closure uses, reaches no clock, random
+// source or map iteration either.
+
+package operator
+
+//@ func (r *ClusterReconciler) reconcileBrokerDeployment$1
+//@   reads_only [C42.broker_statefulset.reads_nothing_of_the_live_object] sts:
+//@ func (r *ClusterReconciler) reconcileBrokerDeployment
+//@   deterministic [C42.broker_statefulset.render_inputs_no_clock_random_or_map_order] except copyStringMap, cloneResourceList
+//@   static_only C42
+
+//@ func (r *ClusterReconciler) reconcileBrokerHeadlessService$1
+//@   reads_only [C42.broker_headless_service.reads_nothing_of_the_live_object] svc:
+//@ func (r *ClusterReconciler) reconcileBrokerHeadlessService
+//@   deterministic [C42.broker_headless_service.render_inputs_no_clock_random_or_map_order] except copyStringMap, cloneResourceList
+//@   static_only C42
+
+//@ func (r *ClusterReconciler) reconcileBrokerService$1
+//@   reads_only [C42.broker_service.reads_nothing_of_the_live_object] svc:
+//@ func (r *ClusterReconciler) reconcileBrokerService
+//@   deterministic [C42.broker_service.render_inputs_no_clock_random_or_map_order] except copyStringMap, cloneResourceList
+//@   static_only C42
+
+//@ func (r *ClusterReconciler) reconcileBrokerHPA$1
+//@   reads_only [C42.broker_hpa.reads_nothing_of_the_live_object] hpa:
+//@ func (r *ClusterReconciler) reconcileBrokerHPA
+//@   deterministic [C42.broker_hpa.render_inputs_no_clock_random_or_map_order] except copyStringMap, cloneResourceList
+//@   static_only C42
+
+//@ func reconcileEtcdHeadlessService$1
+//@   reads_only [C42.etcd_headless_service.reads_nothing_of_the_live_object] svc:
+//@ func reconcileEtcdHeadlessService
+//@   deterministic [C42.etcd_headless_service.render_inputs_no_clock_random_or_map_order] except copyStringMap, cloneResourceList
+//@   static_only C42
+
+//@ func reconcileEtcdClientService$1
+//@   reads_only [C42.etcd_client_service.reads_nothing_of_the_live_object] svc:
+//@ func reconcileEtcdClientService
+//@   deterministic [C42.etcd_client_service.render_inputs_no_clock_random_or_map_order] except copyStringMap, cloneResourceList
+//@   static_only C42
+
+//@ func reconcileEtcdStatefulSet$1
+//@   reads_only [C42.etcd_statefulset.reads_nothing_of_the_live_object] sts:
+//@ func reconcileEtcdStatefulSet
+//@   deterministic [C42.etcd_statefulset.render_inputs_no_clock_random_or_map_order] except copyStringMap, cloneResourceList
+//@   static_only C42
+
+//@ func reconcileEtcdPDB$1
+//@   reads_only [C42.etcd_pdb.reads_nothing_of_the_live_object] pdb:
+//@ func reconcileEtcdPDB
+//@   deterministic [C42.etcd_pdb.render_inputs_no_clock_random_or_map_order] except copyStringMap, cloneResourceList
+//@   static_only C42
+
+//@ func reconcileEtcdSnapshotCronJob$1
+//@   reads_only [C42.etcd_snapshot_cronjob.reads_nothing_of_the_live_object] cron:
+//@ func reconcileEtcdSnapshotCronJob
+//@   deterministic [C42.etcd_snapshot_cronjob.render_inputs_no_clock_random_or_map_order] except copyStringMap, cloneResourceList
+//@   static_only C42
+
+//@ func reconcileEtcdMaintenanceCronJob$1
+//@   reads_only [C42.etcd_maintenance_cronjob.reads_nothing_of_the_live_object] cron:
+//@ func reconcileEtcdMaintenanceCronJob
+//@   deterministic [C42.etcd_maintenance_cronjob.render_inputs_no_clock_random_or_map_order] except copyStringMap, cloneResourceList
+//@   static_only C42
+
+//@ func (r *ClusterReconciler) reconcileLfsProxyDeployment$1
+//@   reads_only [C42.lfs_proxy_deployment.reads_nothing_of_the_live_object] deploy:
+//@ func (r *ClusterReconciler) reconcileLfsProxyDeployment
+//@   deterministic [C42.lfs_proxy_deployment.render_inputs_no_clock_random_or_map_order] except copyStringMap, cloneResourceList
+//@   static_only C42
+
+//@ func (r *ClusterReconciler) reconcileLfsProxyService$1
+//@   reads_only [C42.lfs_proxy_service.reads_nothing_of_the_live_object] svc:
+//@ func (r *ClusterReconciler) reconcileLfsProxyService
+//@   deterministic [C42.lfs_proxy_service.render_inputs_no_clock_random_or_map_order] except copyStringMap, cloneResourceList
+//@   static_only C42
+
+//@ func (r *ClusterReconciler) reconcileLfsProxyMetricsService$1
+//@   reads_only [C42.lfs_proxy_metrics_service.reads_nothing_of_the_live_object] svc:
+//@ func (r *ClusterReconciler) reconcileLfsProxyMetricsService
+//@   deterministic [C42.lfs_proxy_metrics_service.render_inputs_no_clock_random_or_map_order] except copyStringMap, cloneResourceList
+//@   static_only C42
+
